@@ -55,6 +55,7 @@ pub struct Profile {
     pub p_override_in_brackets: u32,
     pub p_shared_prefix: u32,
     pub p_twin: u32,
+    pub p_sibling: u32,
     pub user_ctx: bool,
 }
 
@@ -104,6 +105,7 @@ impl Profile {
             p_override_in_brackets: 30,
             p_shared_prefix: 12,
             p_twin: 0,
+            p_sibling: 0,
             user_ctx: false,
         }
     }
@@ -124,6 +126,7 @@ impl Profile {
             }
             "fields" => {
                 p.name = "fields";
+                p.p_sibling = 70;
                 p.w_field = 30;
                 p.w_lit = 20;
                 p.k_struct = 12;
@@ -137,6 +140,7 @@ impl Profile {
             }
             "types" => {
                 p.name = "types";
+                p.p_sibling = 50;
                 p.w_field = 34;
                 p.w_lit = 14;
                 p.k_struct = 12;
@@ -169,6 +173,7 @@ impl Profile {
             }
             "memo" => {
                 p.name = "memo";
+                p.p_check = 70;
                 p.p_memoize = 110;
                 p.p_shared_prefix = 130;
                 p.p_nullable_rule = 90;
@@ -176,7 +181,6 @@ impl Profile {
                 p.w_choice = 16;
                 p.w_anon = 16;
                 p.w_field = 16;
-                p.p_check = 20;
                 p.k_extern = 1;
                 p.w_not = 5;
                 p.w_and = 5;
@@ -213,6 +217,7 @@ impl Profile {
             }
             "pos" => {
                 p.name = "pos";
+                p.p_sibling = 30;
                 p.p_position = 150;
                 p.w_field = 26;
                 p.k_string = 5;
@@ -238,6 +243,7 @@ impl Profile {
             }
             "include" => {
                 p.name = "include";
+                p.p_sibling = 130;
                 p.w_include = 26;
                 p.w_field = 22;
                 p.p_check = 24;
@@ -250,6 +256,7 @@ impl Profile {
             }
             "mixed" => {
                 p.name = "mixed";
+                p.p_sibling = 40;
                 p.p_twin = 40;
                 p.p_memoize = 70;
                 p.p_shared_prefix = 70;
@@ -272,6 +279,8 @@ impl Profile {
 pub const RULE_NAMES: &[&str] = &[
     "Alpha", "Beta", "Gamma", "Delta", "Eps", "Zeta", "Eta", "Theta", "Iota", "Kappa", "Lambda", "Mu", "Nu", "Xi",
     "Omi", "Pi", "Rho", "Sigma", "Tau", "Upsilon", "Phi", "Chi", "Psi", "Omega", "A1", "B2", "X", "Yy", "ZZ", "Q9x",
+    // families of names that are prefixes of each other
+    "Xis", "Et", "Etas", "Nu1", "Pip", "Ta", "A1b", "Ps", "Ch", "Om", "Rh", "Rhos", "Mux", "Be", "Al", "Alp",
 ];
 /// keywords that can be raw identifiers; usable as rule and field names
 pub const KEYWORD_NAMES: &[&str] = &[
@@ -955,6 +964,47 @@ impl<'a, 'b> Gen<'a, 'b> {
         g.rules.insert(j, RuleDef::Normal(twin));
     }
 
+    /// "sibling" rules whose names are prefixes of each other (`Sib`, `SibX`), the longer one defined first, used
+    /// (a) as two types of one field (both @string: same Rust payload) and (b) as an include target: anything that
+    /// looks rules or variants up by a name prefix instead of the exact name shows here
+    fn add_siblings(&mut self, g: &mut Grammar) {
+        if g.find("Sib").is_some() {
+            return;
+        }
+        let string_kind = self.src.chance(150);
+        let (sibx, sib) = if string_kind {
+            (
+                NormalRule {
+                    name: "SibX".into(),
+                    directives: vec![Directive::String, Directive::NoSkipWs],
+                    body: Expr::Seq(vec![Expr::lit("x"), Expr::Plus(Box::new(Expr::Choice(vec![Expr::Range('0', '9'), Expr::Range('a', 'f')])))]),
+                },
+                NormalRule { name: "Sib".into(), directives: vec![Directive::String, Directive::NoSkipWs], body: Expr::Plus(Box::new(Expr::Range('0', '9'))) },
+            )
+        } else {
+            (
+                NormalRule {
+                    name: "SibX".into(),
+                    directives: vec![],
+                    body: Expr::Seq(vec![Expr::lit("x"), Expr::named("hx", "char"), Expr::Opt(Box::new(Expr::named("tl", "char")))]),
+                },
+                NormalRule { name: "Sib".into(), directives: vec![], body: Expr::Seq(vec![Expr::named("d", "char"), Expr::Star(Box::new(Expr::Seq(vec![Expr::lit(","), Expr::named("d", "char")])))]) },
+            )
+        };
+        let use_include = !string_kind && self.prof.w_include > 0;
+        if let RuleDef::Normal(r0) = &mut g.rules[0] {
+            let old = std::mem::replace(&mut r0.body, Expr::Eoi);
+            r0.body = if use_include {
+                Expr::Choice(vec![Expr::Seq(vec![Expr::lit("#"), Expr::Include("Sib".into()), Expr::lit("#")]), old])
+            } else {
+                Expr::Choice(vec![Expr::named("sb", "SibX"), Expr::named("sb", "Sib"), old])
+            };
+        }
+        // the longer name first (grammar order matters for first-match lookups)
+        g.rules.push(RuleDef::Normal(sibx));
+        g.rules.push(RuleDef::Normal(sib));
+    }
+
     fn gen_custom_ws(&mut self) -> Vec<RuleDef> {
         // total by construction: a closure over terminals / a @no_skip_ws comment rule
         let mut alts = vec![];
@@ -995,6 +1045,9 @@ impl<'a, 'b> Gen<'a, 'b> {
         let mut g = Grammar { rules: self.rules.iter().flatten().cloned().collect() };
         if self.src.chance(self.prof.p_twin) {
             self.add_twin(&mut g);
+        }
+        if self.src.chance(self.prof.p_sibling) {
+            self.add_siblings(&mut g);
         }
         if self.src.chance(self.prof.p_custom_ws) {
             g.rules.extend(self.gen_custom_ws());
